@@ -190,7 +190,8 @@ def get_compact_representation(
             _row.append(_cor_mat_row_str)
             _data.append(_row)
 
-        _representation = tabulate.tabulate(tabular_data=_data, headers=_headers, tablefmt=table_format)
+        # the numbers have been rounded above: print them as they are (the default floatfmt "g" rounds a second time)
+        _representation = tabulate.tabulate(tabular_data=_data, headers=_headers, tablefmt=table_format, floatfmt="")
         _representation = _representation.replace("\n", "\n" + line_prefix)
         _representation = line_prefix + _representation + "\n"
     except ImportError:
